@@ -230,9 +230,10 @@ Section C15.
     c15_monitor gen_name dec zero eqbV cfg msg d e rtr (st m2) = true.
   Proof. exact (c15_monitor_accepts gen_name dec zero). Qed.
 
-  Theorem C15_bus_model_accepted : forall (eqbP : P -> P -> bool), (forall p, eqbP p p = true) ->
+  Theorem C15_bus_model_accepted : forall (eqbV : V -> V -> bool), (forall v, eqbV v v = true) ->
+    forall (eqbP : P -> P -> bool), (forall p, eqbP p p = true) ->
     forall cfg uuid obj c v modify pb,
-    bus_monitor gen_name enc eqbP cfg c v modify
+    bus_monitor gen_name enc eqbV eqbP cfg c v modify
                 (fst (bus_send gen_name enc cfg uuid obj c v modify pb))
                 (snd (bus_send gen_name enc cfg uuid obj c v modify pb)) = true.
   Proof. exact (bus_monitor_accepts gen_name enc). Qed.
